@@ -21,6 +21,7 @@
            | D<i>!<assoc|->!<vlrs|~>!<evlrs|~>!<format|~>!<x records|~>     one in-place operation on las_i: fields set, lists /
                                         format value / records it leaves (~ = untouched)
            | W<i>                       las_i.write()
+           | N<assoc>!<vlrs>!<evlrs>!<format>!<x records>      round 7: a LasData made from nothing that is live (laspy.create(), LasData(LasHeader()), laspy.read)
      -> one token per W: ok:x<file> | err:<E>      (- when there is none)
 
    fsess <assoc> <vlrs> <format id> <record size> <op> <op> ...
@@ -221,6 +222,12 @@ let dispatch cmd a =
                             de_fmt = fdo; de_recs = opt (recs_of_tok (max 1 ps)) recs } in
                   (fst (dstep ap w (DEdit (i, e))), outs)
                 | _ -> failwith ("bad D " ^ t))
+      | 'N' -> (match String.split_on_char '!' b with
+                | [f; vl; evl; fd; recs] ->
+                  let d = fdesc_of_tok fd in
+                  (fst (dstep ap w (DCreate (assoc_of_tok f, vlrs_of_tok vl, vlrs_of_tok evl, d,
+                                             recs_of_tok (max 1 (int_of_z d.fd_size)) recs))), outs)
+                | _ -> failwith ("bad N " ^ t))
       | _ -> failwith ("bad op " ^ t) in
     let (_, outs) = List.fold_left step (w0, []) (Array.to_list (Array.sub a 5 (Array.length a - 5))) in
     if outs = [] then "-" else String.concat " " outs
